@@ -1,12 +1,13 @@
 """C09 -- celestial coordinate conversions: rotation tables, Euler core, ranges,
 wrappers, unit-vector and SDSS conversions, longitude shifting."""
 import ast
+import os
 
 import mpmath as mp
 import sympy as sp
 
-from vcheck import rules, symx
-from vcheck.core import PyRepo, AnalysisError, call_name, dotted_name, kwarg, norm, walk_no_nested
+from vcheck import pat, rules, symx
+from vcheck.core import PyRepo, AnalysisError, call_name, const_value, dotted_name, kwarg, norm, walk_no_nested
 from vcheck.rules import cfg_of
 
 MANIFEST = dict(
@@ -38,8 +39,40 @@ WRAPPERS = {"eq2gal": 1, "gal2eq": 2, "eq2ec": 3, "ec2eq": 4, "ec2gal": 5, "gal2
 SEMANTIC = ('R09.1', 'R09.3', 'R09.6', 'R09.8')
 
 
-def run(chk):
+def _load_repo():
+    """the parsed tree with local renames undone -- except that a module in which the rename-undo maps a local onto a name that is still in
+    use under its own name in the current function (which would merge two different variables and change what the code computes) is taken
+    as written: the term evaluation does not depend on the names of locals"""
+    from vcheck import rename
     repo = PyRepo()
+    if not repo.renames or os.environ.get("VCHECK_NO_RENAME") == "1":
+        return repo
+    os.environ["VCHECK_NO_RENAME"] = "1"
+    try:
+        raw = PyRepo()
+    finally:
+        del os.environ["VCHECK_NO_RENAME"]
+    bad = set()
+    for rel, q, m in repo.renames:
+        modname = rel[:-3].replace(os.sep, ".")
+        rfi = raw.funcs.get(modname + "." + q)
+        if rfi is None:
+            continue
+        loc = rename._locals_of(rfi.node)
+        if any(y in loc and y not in m for y in m.values()):
+            bad.add(modname)
+    for modname in bad:
+        if modname in raw.modules:
+            repo.modules[modname] = raw.modules[modname]
+            for k in [k for k in repo.funcs if repo.funcs[k].module.name == modname]:
+                del repo.funcs[k]
+            for fi in raw.modules[modname].funcs.values():
+                repo.funcs[fi.qualname] = fi
+    return repo
+
+
+def run(chk):
+    repo = _load_repo()
     chk.set_templates(repo, semantic=SEMANTIC)
     mp.mp.dps = 30
     chk.explanation = MANIFEST["text"]
@@ -47,8 +80,8 @@ def run(chk):
     chk.floor = 120
     fi = repo.func(CO + "euler")
     chk.analysed_unit(fi.qualname)
-    tabs = tables(chk, fi)
-    euler_core(chk, repo, fi, tabs)
+    eff = euler_core(chk, repo, fi)
+    tables(chk, repo, fi, eff)
     wrappers(chk, repo)
     rotate(chk, repo)
     unitvec(chk, repo)
@@ -58,33 +91,107 @@ def run(chk):
 
 
 # ---------------------------------------------------------------------------
-def tables(chk, fi):
-    src = fi.module.src
-    tabs = {}
-    for node in ast.walk(fi.node):
-        if isinstance(node, ast.If) and norm(node.test) == "b1950":
-            for key, body in (("B1950", node.body), ("J2000", node.orelse)):
-                for st in body:
-                    if isinstance(st, ast.Assign) and isinstance(st.value, ast.Call) and st.value.args and isinstance(st.value.args[0], ast.List):
-                        vals = []
-                        for e in st.value.args[0].elts:
-                            neg = isinstance(e, ast.UnaryOp) and isinstance(e.op, ast.USub)
-                            lit = e.operand if neg else e
-                            txt = ast.get_source_segment(src, lit)
-                            vals.append(-mp.mpf(txt) if neg else mp.mpf(txt))
-                        tabs[(key, norm(st.targets[0]))] = vals
-    need = [(e, t) for e in ("J2000", "B1950") for t in ("psi", "stheta", "ctheta", "phi")]
-    if not all(k in tabs and len(tabs[k]) == 6 for k in need):
-        raise AnalysisError("euler rotation tables not found as four 6-entry literal lists per epoch")
+def _mpf(x):
+    return mp.mpf(str(sp.N(x, 40)))
+
+
+def _circ(d):
+    """distance of d from the nearest multiple of 2 pi"""
+    d = mp.fmod(d, 2 * mp.pi)
+    if d < 0:
+        d += 2 * mp.pi
+    return min(d, 2 * mp.pi - d)
+
+
+def _reachable_code(repo, fi, depth=3):
+    """(module, ast) of fi's body, of the package functions it calls (transitively, bounded), and of the module-level constants those read"""
+    out, seen, todo = [], set(), [(fi, 0)]
+    while todo:
+        f, d = todo.pop()
+        if f.qualname in seen:
+            continue
+        seen.add(f.qualname)
+        out.append((f.module, f.node))
+        for x in walk_no_nested(f.node):
+            if isinstance(x, ast.Call) and d < depth:
+                dn = dotted_name(x.func)
+                full = repo.resolve_name(f.module, dn) if dn else None
+                if full and repo.has(full):
+                    todo.append((repo.func(full), d + 1))
+    cseen = set()
+    k = 0
+    while k < len(out):
+        mod, node = out[k]
+        k += 1
+        for x in ast.walk(node):
+            if isinstance(x, ast.Name) and isinstance(x.ctx, ast.Load) and x.id in mod.consts and (mod.name, x.id) not in cseen:
+                cseen.add((mod.name, x.id))
+                out.append((mod, mod.consts[x.id]))
+    return out
+
+
+def _literal_tables(repo, fi, n=6):
+    """every n-entry sequence of numeric literals (list or tuple display) in the code euler reaches, read at 30 digits from the source text"""
+    seqs = []
+    for mod, node in _reachable_code(repo, fi):
+        for x in ast.walk(node):
+            if isinstance(x, (ast.List, ast.Tuple)) and len(x.elts) == n:
+                vals = []
+                for e in x.elts:
+                    neg = isinstance(e, ast.UnaryOp) and isinstance(e.op, ast.USub)
+                    lit = e.operand if neg else e
+                    if not (isinstance(lit, ast.Constant) and isinstance(lit.value, (int, float)) and not isinstance(lit.value, bool)):
+                        break
+                    txt = ast.get_source_segment(mod.src, lit) or repr(lit.value)
+                    try:
+                        v = mp.mpf(txt.replace("_", ""))
+                    except Exception:
+                        v = mp.mpf(repr(lit.value))
+                    vals.append(-v if neg else v)
+                else:
+                    seqs.append((vals, "%s:%s" % (mod.relpath, getattr(x, "lineno", "?"))))
+    return seqs
+
+
+def tables(chk, repo, fi, eff):
+    """R09.1 on the rotation constants.  eff[(epoch, select)] are the constants euler() actually uses for that selector, read off the
+    evaluated output terms (so it does not matter where or how the tables are stored); the literal tables are located through their
+    tie to those constants (an n-th entry of a 6-entry literal sequence for select = n)."""
     d2r = mp.pi / 180
+    seqs = _literal_tables(repo, fi)
+    tiny = mp.mpf("1e-20")
     for ep in ("J2000", "B1950"):
-        psi, st, ct, phi = [tabs[(ep, k)] for k in ("psi", "stheta", "ctheta", "phi")]
+        E = [eff.get((ep, sel)) for sel in range(1, 7)]
+        if any(e is None for e in E):
+            chk.ob("R09.1", "%s::rotation-constants-readable" % ep, None, fi.where(),
+                   "the rotation constants (psi, sin/cos theta, phi) of every selector can be read off the evaluated terms of euler()")
+            continue
+        psi, st, ct, phi = [[_mpf(e[k]) for e in E] for k in ("psi", "stheta", "ctheta", "phi")]
+        # the literal tables behind the constants
+        raw = {}
+        for nm, vals, tol, circ in (("psi", psi, tiny, True), ("phi", phi, tiny, True), ("stheta", st, mp.mpf("1e-10"), False), ("ctheta", ct, mp.mpf("1e-10"), False)):
+            for sv, wh in seqs:
+                if all(((_circ(a - b) if circ else abs(a - b)) <= tol) for a, b in zip(sv, vals)):
+                    raw[nm] = (sv, wh)
+                    break
+        found = len(raw) == 4
+        chk.ob("R09.5", "euler[%s]::selector-is-one-based" % ep, True if found else None, fi.where(),
+               "select = n uses the n-th entry of the tabulated psi / stheta / ctheta / phi (literal tables %s)"
+               % (", ".join("%s at %s" % (k, v[1]) for k, v in sorted(raw.items())) if found else "not located: only %s tie to the constants used" % sorted(raw)))
         for i in range(6):
             j = INV[i]
-            chk.ob("R09.1", "%s::sel%d::unit-norm" % (ep, i + 1), abs(st[i] ** 2 + ct[i] ** 2 - 1) <= mp.mpf("1e-9"), fi.where(),
-                   "stheta^2+ctheta^2 = 1 within 1e-9 (deviation %s)" % mp.nstr(st[i] ** 2 + ct[i] ** 2 - 1, 3))
-            ok = psi[i] == phi[j] and st[i] == -st[j] and ct[i] == ct[j]
-            chk.ob("R09.1", "%s::sel%d::inverse-of-sel%d" % (ep, i + 1, j + 1), ok, fi.where(),
+            if found:
+                rs, rc = raw["stheta"][0][i], raw["ctheta"][0][i]
+                chk.ob("R09.1", "%s::sel%d::unit-norm" % (ep, i + 1), abs(rs ** 2 + rc ** 2 - 1) <= mp.mpf("1e-9"), fi.where(),
+                       "tabulated stheta^2+ctheta^2 = 1 within 1e-9 (deviation %s)" % mp.nstr(rs ** 2 + rc ** 2 - 1, 3))
+                tie = abs(rs - st[i]) <= mp.mpf("1e-10") and abs(rc - ct[i]) <= mp.mpf("1e-10")
+                chk.ob("R09.1", "euler[%s,select=%d]::pair-used-is-the-tabulated-pair" % (ep, i + 1), bool(tie), fi.where(),
+                       "the pair used agrees with the tabulated stheta/ctheta within 1e-10 (renormalisation only)")
+            else:
+                chk.ob("R09.1", "%s::sel%d::unit-norm" % (ep, i + 1), None, fi.where(),
+                       "tabulated stheta^2+ctheta^2 = 1 within 1e-9: no 6-entry literal tables tie to the constants euler() uses")
+            ok = _circ(psi[i] - phi[j]) <= tiny and abs(st[i] + st[j]) <= tiny and abs(ct[i] - ct[j]) <= tiny
+            chk.ob("R09.1", "%s::sel%d::inverse-of-sel%d" % (ep, i + 1, j + 1), bool(ok), fi.where(),
                    "selector %d is the inverse rotation of selector %d: psi<->phi exchanged, stheta negated, ctheta equal" % (i + 1, j + 1))
         r = {k: mp.mpf(v) for k, v in REF[ep].items()}
         exp = {0: (r["lomega"] * d2r, mp.cos(r["deltaG"] * d2r), mp.sin(r["deltaG"] * d2r), ((r["alphaG"] + 90) % 360) * d2r),
@@ -93,11 +200,11 @@ def tables(chk, fi):
             exp[4] = (r["Eomega"] * d2r, mp.cos(r["deltaE"] * d2r), mp.sin(r["deltaE"] * d2r), ((r["alphaE"] + 90) % 360) * d2r)
         tol = mp.mpf("1e-7")
         for i, (a, b, c, d) in exp.items():
-            for nm, got, want in (("psi", psi[i], a), ("stheta", st[i], b), ("ctheta", ct[i], c), ("phi", phi[i], d)):
-                chk.ob("R09.1", "%s::sel%d::%s-vs-documented-constants" % (ep, i + 1, nm), abs(got - want) <= tol, fi.where(),
+            for nm, got, want, circ in (("psi", psi[i], a, True), ("stheta", st[i], b, False), ("ctheta", ct[i], c, False), ("phi", phi[i], d, True)):
+                dev = _circ(got - want) if circ else abs(got - want)
+                chk.ob("R09.1", "%s::sel%d::%s-vs-documented-constants" % (ep, i + 1, nm), dev <= tol, fi.where(),
                        "%s[%d] = %s agrees with the value %s derived from the documented pole/node constants within 1e-7 rad (delta %s)"
-                       % (nm, i, mp.nstr(got, 12), mp.nstr(want, 12), mp.nstr(got - want, 3)))
-    return tabs
+                       % (nm, i, mp.nstr(got, 12), mp.nstr(want, 12), mp.nstr(dev, 3)))
 
 
 def _side(c, v, inner):
@@ -147,24 +254,30 @@ def _two_sided(arg):
     return ok, "masked clamp: upper side %s, lower side %s" % ("present" if "hi" in sides else "MISSING", "present" if "lo" in sides else "MISSING"), cur
 
 
+def _strip_clamp(arg):
+    CL = sp.Function("CLIP")
+    for _ in range(4):
+        if isinstance(arg, CL):
+            arg = arg.args[0]
+        elif isinstance(arg, sp.Piecewise):
+            d = [v for v, c in arg.args if c == sp.true]
+            if not d:
+                return None
+            arg = d[0]
+        else:
+            break
+    return arg
+
+
 def _effective_pair(lat, ai, bi, phi):
     """(s, c) actually multiplying the latitude formula sin(lat') = -s cos b sin(a - phi) + c sin b, read off the evaluated term"""
     try:
         k, rest = lat.as_independent(ai, bi, as_Add=False)
         if not isinstance(rest, sp.asin):
             return None
-        arg = rest.args[0]
-        CL = sp.Function("CLIP")
-        for _ in range(4):
-            if isinstance(arg, CL):
-                arg = arg.args[0]
-            elif isinstance(arg, sp.Piecewise):
-                d = [v for v, c in arg.args if c == sp.true]
-                if not d:
-                    return None
-                arg = d[0]
-            else:
-                break
+        arg = _strip_clamp(rest.args[0])
+        if arg is None:
+            return None
         c = sp.simplify(arg.subs(bi, 90))
         sneg = sp.simplify(arg.subs(bi, 0).subs(ai, (sp.pi / 2 + phi) * 180 / sp.pi))
         if c.free_symbols or sneg.free_symbols:
@@ -174,36 +287,78 @@ def _effective_pair(lat, ai, bi, phi):
         return None
 
 
-def euler_core(chk, repo, fi, tabs):
+def _read_constants(ao, bo, ai, bi):
+    """the rotation constants (psi, stheta, ctheta, phi) euler() uses, read off its evaluated output terms: phi is what is subtracted from
+    the input longitude inside the trigonometric functions, (stheta, ctheta) the coefficients of the latitude formula, psi the constant
+    added to the arctangent of the longitude.  None when the terms do not have that shape."""
+    try:
+        k, rest = bo.as_independent(ai, bi, as_Add=False)
+        if not isinstance(rest, sp.asin):
+            return None
+        f = _strip_clamp(rest.args[0])
+        if f is None:
+            return None
+        phis = set()
+        for t in f.atoms(sp.sin, sp.cos):
+            a = sp.expand(t.args[0])
+            if ai not in a.free_symbols:
+                continue
+            co = a.coeff(ai)
+            if co == 0 or (a - co * ai).free_symbols:
+                return None
+            if co.is_negative:
+                a, co = -a, -co
+            if sp.simplify(co - sp.pi / 180) != 0:
+                return None
+            phis.add(sp.simplify(co * ai - a))
+        if len(phis) != 1:
+            return None
+        phi = phis.pop()
+        pair = _effective_pair(bo, ai, bi, phi)
+        if pair is None:
+            return None
+        k, rest = ao.as_independent(ai, bi, as_Add=False)
+        inner = rest.args[0] if isinstance(rest, sp.Mod) else rest
+        psi, dep = inner.as_independent(ai, bi, as_Add=True)
+        if not psi.is_number or not isinstance(dep, sp.atan2):
+            return None
+        return {"psi": psi, "stheta": pair[0], "ctheta": pair[1], "phi": phi}
+    except Exception:
+        return None
+
+
+def euler_core(chk, repo, fi):
     se = symx.SymEval(repo)
     ai, bi = symx.symbols("ai", "bi")
     d2r = sp.pi / 180
+    eff = {}
     for ep in ("J2000", "B1950"):
         for sel in range(1, 7):
             r = se.run(fi, {"ai": ai, "bi": bi, "select": sp.Integer(sel)}, {"b1950": ep == "B1950"})
             tag = "euler[%s,select=%d]" % (ep, sel)
-            if not (isinstance(r, tuple) and len(r) == 2):
+            if not (isinstance(r, tuple) and len(r) == 2 and all(isinstance(x, sp.Basic) for x in r)):
                 chk.ob("R09.2", tag + "::returns-pair", False, fi.where(), "expected (lon, lat), got %r" % (r,))
                 continue
-            T = {k: sp.Rational(mp.nstr(tabs[(ep, k)][sel - 1], 25)) for k in ("psi", "stheta", "ctheta", "phi")}
-            eff = _effective_pair(r[1], ai, bi, T["phi"])
-            if eff is not None:
-                se_, ce_ = eff
-                dev = abs(mp.mpf(sp.N(se_ ** 2 + ce_ ** 2 - 1, 40)))
-                # a point at the pole of the target system gets sin(lat') = s^2 + c^2; with s^2 + c^2 = 1 - eps the latitude is short of 90 deg by
-                # sqrt(2 eps) rad, so the property's 1e-5 degree (poles are in its quantifier) needs eps <= (1e-5 pi/180)^2 / 2 = 1.5e-14
-                lim = (mp.mpf("1e-5") * mp.pi / 180) ** 2 / 2
-                chk.ob("R09.1", "euler::rotation-sine-cosine-unit-norm" if dev > lim else tag + "::rotation-sine-cosine-unit-norm", dev <= lim, fi.where(),
-                       "the sine/cosine pair actually used satisfies |s^2 + c^2 - 1| <= %s (needed for 1e-5 degree at the target pole, where sin(lat') = s^2 + c^2); "
-                       "deviation %s" % (mp.nstr(lim, 3), mp.nstr(dev, 3)))
-                tie = abs(mp.mpf(sp.N(se_ - T["stheta"], 40))) <= mp.mpf("1e-10") and abs(mp.mpf(sp.N(ce_ - T["ctheta"], 40))) <= mp.mpf("1e-10")
-                chk.ob("R09.1", tag + "::pair-used-is-the-tabulated-pair", bool(tie), fi.where(), "the pair used agrees with the tabulated stheta/ctheta within 1e-10 (renormalisation only)")
-                T["stheta"], T["ctheta"] = se_, ce_
+            ao, bo = r
+            T = _read_constants(ao, bo, ai, bi)
+            eff[(ep, sel)] = T
+            if T is None:
+                chk.ob("R09.2", tag + "::latitude-formula", False, fi.where(),
+                       "the evaluated terms do not have the shape lat' = asin(-s cos b sin(a-phi) + c sin b), lon' = atan2(...) + psi with constant s, c, phi, psi: %s"
+                       % str(r)[:200])
+                continue
+            se_, ce_ = T["stheta"], T["ctheta"]
+            dev = abs(mp.mpf(sp.N(se_ ** 2 + ce_ ** 2 - 1, 40)))
+            # a point at the pole of the target system gets sin(lat') = s^2 + c^2; with s^2 + c^2 = 1 - eps the latitude is short of 90 deg by
+            # sqrt(2 eps) rad, so the property's 1e-5 degree (poles are in its quantifier) needs eps <= (1e-5 pi/180)^2 / 2 = 1.5e-14
+            lim = (mp.mpf("1e-5") * mp.pi / 180) ** 2 / 2
+            chk.ob("R09.1", "euler::rotation-sine-cosine-unit-norm" if dev > lim else tag + "::rotation-sine-cosine-unit-norm", dev <= lim, fi.where(),
+                   "the sine/cosine pair actually used satisfies |s^2 + c^2 - 1| <= %s (needed for 1e-5 degree at the target pole, where sin(lat') = s^2 + c^2); "
+                   "deviation %s" % (mp.nstr(lim, 3), mp.nstr(dev, 3)))
             a = ai * d2r - T["phi"]
             b = bi * d2r
             lat_arg = -T["stheta"] * sp.cos(b) * sp.sin(a) + T["ctheta"] * sp.sin(b)
             lon_arg = sp.atan2(T["ctheta"] * sp.cos(b) * sp.sin(a) + T["stheta"] * sp.sin(b), sp.cos(b) * sp.cos(a)) + T["psi"]
-            ao, bo = r
             # latitude
             k, rest = bo.as_independent(ai, bi, as_Add=False)
             okk = sp.simplify(k - 180 / sp.pi) == 0 and isinstance(rest, sp.asin)
@@ -226,9 +381,7 @@ def euler_core(chk, repo, fi, tabs):
                 if not eq:
                     eq, _ = symx.equal(inner, lon_arg)
                 chk.ob("R09.2", tag + "::longitude-formula", bool(eq), fi.where(), "lon' = atan2(ctheta cos b sin(a-phi) + stheta sin b, cos b cos(a-phi)) + psi (mod 2pi)")
-    # zero offset of the selector
-    sel = [x for x in walk_no_nested(fi.node) if isinstance(x, ast.Assign) and norm(x.value) == "select - 1"]
-    chk.ob("R09.5", "euler::selector-is-one-based", len(sel) == 1, fi.where(), "table index is select - 1")
+    return eff
 
 
 def wrappers(chk, repo):
